@@ -115,7 +115,7 @@ class CuckooSystem(System):
         # transitions per configuration; BFS stops BEFORE a level it cannot finish, so "all sequences <= d" holds
         heavy = prop in ("C05", "C06", "C19")
         if tier == "quick":
-            budget = (3500 if prop == "C05" else 6000) if heavy else (15000 if prop == "C14" else 30000)
+            budget = (2500 if prop == "C05" else 4000) if heavy else (10000 if prop == "C14" else (20000 if prop == "C15" else 30000))
         else:
             budget = 100000 if heavy else 600000
         for cls in classes:
